@@ -46,6 +46,38 @@ def enc_trace(trace):
     return out
 
 
+def stutter_reads(trace):
+    """
+    The model's preallocate reads the pointer twice before writing it (`current = ptr.value;
+    ptr.value += size`).  A rewrite that reads it once (`ptr.value = current + size`) - or three
+    times - inside the same critical section is the same algorithm; to keep such a trace a run
+    of the model, a worker's pointer reads between its `acq` and its `pset` are padded (the
+    last read repeated) or trimmed (a read that saw the SAME value as the one before dropped)
+    to exactly two.  A repeated read claims nothing new: the model still checks that the
+    value it saw is the pointer's value at that point, so a write by another worker in
+    between (a broken lock) makes the padded trace invalid, never valid.
+    """
+    out = []
+    open_reads = {}            # worker -> indices (in out) of its pgets since its last acq
+    for ev in trace:
+        kind, w = ev[0], ev[1]
+        if kind == 'acq':
+            open_reads[w] = []
+        elif kind == 'pget' and w in open_reads:
+            idxs = open_reads[w]
+            if len(idxs) >= 2 and out[idxs[-1]][2] == ev[2]:
+                continue                                    # a third look at the same value
+            idxs.append(len(out))
+        elif kind == 'pset' and w in open_reads:
+            idxs = open_reads.pop(w)
+            if len(idxs) == 1:
+                out.append(list(out[idxs[0]]))              # the read it did not repeat
+        elif kind == 'rel':
+            open_reads.pop(w, None)
+        out.append(ev)
+    return out
+
+
 def gen_case(rng, tier):
     nw = rng.choice([2, 2, 3, 4])
     B = rng.choice([1, 2, 2, 3, 4, 5])
@@ -179,9 +211,10 @@ def spec_check(case, impl):
 
 
 def model_case(item):
+    item['_norm'] = stutter_reads(item['impl']['trace'])
     return {'kind': 'parstore', 'B': item['case']['B'],
             'progs': [[[enc(x) for x in op] for op in p] for p in item['case']['progs']],
-            'events': enc_trace(item['impl']['trace'])}
+            'events': enc_trace(item['_norm'])}
 
 
 def interesting(impl):
@@ -220,8 +253,9 @@ def judge(rep, item, mobs):
     m = mobs['model']
     if not m['valid']:
         rep.fail('correspondence-broken', case,
-                 f"trace event #{m['at']} {impl['trace'][m['at']]}: {m['why']}",
-                 impl=impl['trace'][:m['at'] + 1], model=m)
+                 f"trace event #{m['at']} {item.get('_norm', impl['trace'])[m['at']]}: "
+                 f"{m['why']}",
+                 impl=item.get('_norm', impl['trace'])[:m['at'] + 1], model=m)
         return
     rep.traces_validated += 1
     mg = [w['grants'] for w in m['workers']]
